@@ -49,6 +49,7 @@ type seqJob struct {
 	Traces      int               `json:"traces,omitempty"`
 	Len         int               `json:"len,omitempty"`
 	OutFile     string            `json:"outFile,omitempty"`
+	Script      string            `json:"script,omitempty"`
 }
 
 // histories runs TLC on MockSeq for one (methods, stub, resets, maxLen)
@@ -241,6 +242,16 @@ func runSeq(prop, tier string, sc *core.Scratch, ev *core.Evidence, rep *core.Re
 		recJobs = append(recJobs, j)
 		jobs = append(jobs, j)
 		jobMeta = append(jobMeta, j)
+	}
+	// ... and one scripted trace per method: 45 operations, 37 of them calls of that method
+	for i, mk := range mod.Mocks {
+		for k, mp := range mappings(mk.Methods, true) {
+			j := seqJob{Kind: "record", Mock: mk.Key, Map: mp, Seed: core.Seed(), Traces: 1, Len: 45, Script: "growth",
+				OutFile: filepath.Join(recDir, fmt.Sprintf("grow-%d-%d.ndjson", i, k))}
+			recJobs = append(recJobs, j)
+			jobs = append(jobs, j)
+			jobMeta = append(jobMeta, j)
+		}
 	}
 	core.WriteFile(filepath.Join(recDir, ".keep"), nil)
 	results, stderr, err := RunDriver[seqResult](bin, mod.Dir, "seq", jobs, 30*time.Minute)
